@@ -192,6 +192,40 @@ def witness_skip():
     return bool(skip), line
 
 
+def loops():
+    """the decisions of the point-based loops the models copy (perseusLoop, pbviStep / pbviSelect, lsScan / lsLoop): pinned, so
+    that a change of a comparison or of the call that assembles an entry is a broken tie even where the harness streams would
+    need luck to see it"""
+    per = X.strip_comments(X.read(PER))
+    X.find1(rx('if ( !start ) {') + W + rx('findBestAtPoint ( b , rbegin , rend , &currentValue , unwrap ) ;') + W +
+            rx('findBestAtPoint ( b , obegin , oend , &oldValue , unwrap ) ;') + W + rx('if ( currentValue >= oldValue ) continue ; }'), per,
+            'PERSEUS::crossSum: skip a belief iff currentValue >= oldValue')
+    X.find1(rx('result.emplace_back ( crossSumBestAtBelief ( b , projs ) ) ;'), per, 'PERSEUS::crossSum: result.emplace_back(crossSumBestAtBelief(b, projs))')
+    X.find1(rx('result.erase ( extractDominated ( rbegin , rend , unwrap ) , std::end ( result ) ) ;'), per, 'PERSEUS::crossSum: final extractDominated')
+    X.find1(rx('v.emplace_back ( crossSum ( projs , beliefs , v[timestep-1] ) ) ;'), per, 'PERSEUS: v.emplace_back(crossSum(projs, beliefs, v[timestep-1]))')
+    pb = X.strip_comments(X.read(PBV))
+    X.find1(rx('for ( const auto & b : bl )') + W + rx('result.emplace_back ( crossSumBestAtBelief ( b , projs , a ) ) ;'), pb,
+            'PBVI::crossSum: one crossSumBestAtBelief(b, projs, a) per belief')
+    X.find1(rx('result.erase ( extractDominated ( rbegin , rend , unwrap ) , rend ) ;'), pb, 'PBVI::crossSum: extractDominated')
+    X.find1(rx('projs[a][0] = crossSum ( projs[a] , a , beliefs ) ;'), pb, 'PBVI: projs[a][0] = crossSum(projs[a], a, beliefs)')
+    X.find1(rx('for ( const auto & belief : beliefs )') + W + rx('bound = extractBestAtPoint ( belief , begin , bound , end , unwrap ) ;') + W +
+            rx('w.erase ( bound , std::end ( w ) ) ;'), pb, 'PBVI: per-belief extractBestAtPoint, then erase(bound, end)')
+    ls = X.strip_comments(X.read(LSU))
+    X.find1(rx('const auto [ it , inserted ] = allSupports.emplace ( crossSumBestAtBelief ( corner , projections ) ) ;') + W +
+            rx('if ( inserted ) goodSupports.push_back ( *it ) ;'), ls, 'LinearSupport: corner supports')
+    X.find1(rx('auto support = crossSumBestAtBelief ( vertex , projections , &trueValue ) ;'), ls, 'LinearSupport: support = crossSumBestAtBelief(vertex, projections, &trueValue)')
+    X.find1(rx('if ( diff > tolerance_ && checkDifferentGeneral ( diff , tolerance_ ) )'), ls, 'LinearSupport: diff > tolerance_ && checkDifferentGeneral(diff, tolerance_)')
+    X.find1(rx('if ( it->belief.dot ( best.support->values ) > it->currentValue )'), ls, 'LinearSupport: obsolete-vertex test')
+    X.find1(rx('goodSupports.push_back ( *best.support ) ;'), ls, 'LinearSupport: goodSupports.push_back(*best.support)')
+    X.find1(rx('v.emplace_back ( std::move ( goodSupports ) ) ;'), ls, 'LinearSupport: v.emplace_back(goodSupports)')
+    pol = X.strip_comments(X.read(POL))
+    X.find1(rx('const auto & vlist = policy_[horizon] ;') + W + rx('const auto bestMatch = findBestAtPoint ( b , std::begin ( vlist ) , std::end ( vlist ) , nullptr , unwrap ) ;') + W +
+            rx('const size_t action = bestMatch->action ;') + W + rx('const size_t id = std::distance ( std::begin ( vlist ) , bestMatch ) ;'), pol,
+            'Policy::sampleAction(b, horizon): best entry of policy_[horizon], its action and its position')
+    X.find1(rx('const auto & vlist = policy_.back ( ) ;'), pol, 'Policy::sampleAction(b): policy_.back()')
+    X.find1(rx('Base ( s , a ) , O ( o ) , H ( v.size ( ) -1 ) , policy_ ( v )'), pol, 'Policy(s,a,o,v): H = v.size()-1, policy_ = v')
+
+
 def helpers():
     """makeValueFunction / makeVEntry / crossSumBestAtBelief: the shapes the model copies"""
     src = X.strip_comments(X.read(UTC))
@@ -219,6 +253,7 @@ def gen_c04():
     lv = levels()
     wskip, wl = witness_skip()
     strict, hl = helpers()
+    loops()
     b = lambda x: 'true' if x else 'false'
     body = ['/- GENERATED by tools/extract_c04.py from the library source — do not edit. -/', 'namespace AITB.Gen.C04', '',
             f'/-- {IPH}:{f["line"]} — initial `stepsize` -/', f'def stepsize0 : Int := {f["stepsize0"]}',
